@@ -16,6 +16,8 @@ import verifkit as vk
 import gen
 import ser
 from checks import common
+
+repr = common.safe_repr          # deep chains: the library's recursive __repr__ must not crash the report
 from checks.common import Cases
 
 LEVEL = "proof"
@@ -317,6 +319,15 @@ def run(rep: vk.Report):
             if witness:
                 witness["reported_degree"] = d
                 break
+        # the verdicts are claims of their own: "linear" says the function is affine, "quadratic" that its third differences vanish
+        if witness is None and meta.get("lin") is True:
+            witness = finite_difference_refutes(e, 1, rng)
+            if witness:
+                witness["claim"] = "is_linear() answered True"
+        if witness is None and meta.get("quad") is True:
+            witness = finite_difference_refutes(e, 2, rng)
+            if witness:
+                witness["claim"] = "is_quadratic() answered True"
         rep.violation({"kind": "correspondence", "obligation": "implementation degree = model degree (Degree.v)",
                        "case": cs.terms[idx][:4000], "implementation": meta, "model": model,
                        "witness": witness, "expr_repr": repr(e)[:500]}, concrete=witness is not None)
